@@ -97,6 +97,13 @@ def run(chk: Check):
             hangs += 1
             chk.violation("stan:hang", f"stan_epochs did not return within 5 s for {a}",
                           {"kind": "hang", "args": a})
+    # EngineBuilder.set_duration is stan_epochs with init_duration = 75, base_duration = 25
+    for i in range(300 if chk.quick else 6000):
+        a = D.random_stan_args(rng, wide=(i % 3 == 0))
+        a["init"], a["base"] = 75, 25
+        if i % 2 == 0:
+            a["warmup"] = 75 + 25 + a["term"] + rng.choice([0, 1, 7, rng.randint(0, 900)])
+        traces.append(D.stan_trace(a, via_builder=True))
     # chunk for manager-style schedules as well
     for _ in range(n_chunk):
         k = rng.choice([1, 2, 3, 4, 6])
